@@ -262,24 +262,36 @@ theorem call_pos (st : St) (rest : Bytes) (pos : Nat) :
         simp only [List.length_cons] at hl ⊢
         omega
 
-/-- Tokens of the byte automaton over `bytes` starting at `pos`, then the EOF flush. -/
-def specFrom (st : St) (bytes : Bytes) (pos : Nat) : List PTok :=
-  (foldBytes st bytes pos).2 ++ (call (foldBytes st bytes pos).1 [10] (pos + bytes.length)).toks
-
-/-- The buffered loop, given enough fuel, yields exactly the automaton's tokens — whatever `b ≥ 1`. -/
-theorem runLoop_eq (b : Nat) (hb : 1 ≤ b) : ∀ (f : Nat) (st : St) (rest file : Bytes) (pos : Nat),
-    3 * (rest.length + file.length) + rank st.mode + 1 ≤ f →
-    runLoop b f st rest file pos = some (specFrom st (rest ++ file) pos)
-  | 0, _, _, _, _, h => by omega
-  | f + 1, st, rest, file, pos, h => by
+/-- The buffered loop, given enough fuel, yields exactly the automaton's tokens over the unread
+    bytes followed by the flushed newline — whatever `b ≥ 1`. -/
+theorem runLoop_eq (b : Nat) (hb : 1 ≤ b) : ∀ (f : Nat) (eof : Bool) (st : St) (rest file : Bytes) (pos : Nat),
+    (eof = true → file = []) →
+    3 * (rest.length + file.length + (if eof then 0 else 1)) + rank st.mode + 1 + (if eof then 0 else 1) ≤ f →
+    runLoop b f eof st rest file pos =
+      some (foldBytes st (rest ++ file ++ (if eof then [] else [10])) pos).2
+  | 0, _, _, _, _, _, _, h => by omega
+  | f + 1, eof, st, rest, file, pos, hef, h => by
     rw [runLoop]
     cases rest with
     | nil =>
       simp only [List.isEmpty_nil, if_true, List.nil_append]
       cases hfile : file with
-      | nil => simp [specFrom, foldBytes]
+      | nil =>
+        simp only [List.take_nil, List.drop_nil]
+        cases eof with
+        | true => simp [foldBytes]
+        | false =>
+          simp only [Bool.false_eq_true, if_false]
+          rw [runLoop_eq b hb f true st [10] [] pos (fun _ => rfl)
+            (by subst hfile; simp at h ⊢; omega)]
+          simp
       | cons d ft =>
         rw [← hfile]
+        have heof : eof = false := by
+          cases eof with
+          | false => rfl
+          | true => have := hef rfl; rw [this] at hfile; simp at hfile
+        subst heof
         have hne : file.take b ≠ [] := by
           rw [hfile]; cases b with
           | zero => omega
@@ -290,37 +302,36 @@ theorem runLoop_eq (b : Nat) (hb : 1 ≤ b) : ∀ (f : Nat) (st : St) (rest file
           simp only
           rw [← hbuf]
           have hm := call_measure st (file.take b) pos hne
-          have hp := call_pos st (file.take b) pos
           have hlen : (file.take b).length + (file.drop b).length = file.length := by
             rw [← List.length_append, List.take_append_drop]
-          have ih := runLoop_eq b hb f (call st (file.take b) pos).st (call st (file.take b) pos).rest
-            (file.drop b) (call st (file.take b) pos).pos (by simp only [List.length_nil] at h; omega)
+          have ih := runLoop_eq b hb f false (call st (file.take b) pos).st (call st (file.take b) pos).rest
+            (file.drop b) (call st (file.take b) pos).pos (by simp)
+            (by simp only [List.length_nil, Bool.false_eq_true, if_false] at h ⊢; omega)
           rw [ih]
           have hsplit : file = file.take b ++ file.drop b := (List.take_append_drop b file).symm
-          have e1 : specFrom st file pos = specFrom st (file.take b ++ file.drop b) pos := by rw [← hsplit]
+          have e1 : foldBytes st (file ++ (if false = true then [] else [10])) pos
+              = foldBytes st (file.take b ++ (file.drop b ++ [10])) pos := by
+            rw [← List.append_assoc, ← hsplit]; simp
           rw [e1]
-          simp only [specFrom]
-          rw [foldBytes_append (file.take b) (file.drop b) st pos,
-              call_fold st (file.take b) pos hne,
-              foldBytes_append (call st (file.take b) pos).rest (file.drop b)]
-          simp only [List.append_assoc, List.length_append]
-          have e2 : (call st (file.take b) pos).pos + ((call st (file.take b) pos).rest.length + (file.drop b).length)
-              = pos + ((file.take b).length + (file.drop b).length) := by omega
-          rw [e2, hp]
+          rw [foldBytes_append (file.take b) (file.drop b ++ [10]) st pos,
+              call_fold st (file.take b) pos hne]
+          simp only [Bool.false_eq_true, if_false, List.append_assoc]
+          rw [foldBytes_append (call st (file.take b) pos).rest (file.drop b ++ [10])]
+          simp only [List.append_assoc]
+          rw [call_pos]
     | cons x xs =>
       simp only [List.isEmpty_cons, Bool.false_eq_true, if_false]
       have hne : (x :: xs) ≠ [] := by simp
       have hm := call_measure st (x :: xs) pos hne
-      have hp := call_pos st (x :: xs) pos
-      have ih := runLoop_eq b hb f (call st (x :: xs) pos).st (call st (x :: xs) pos).rest
-        file (call st (x :: xs) pos).pos (by omega)
+      have ih := runLoop_eq b hb f eof (call st (x :: xs) pos).st (call st (x :: xs) pos).rest
+        file (call st (x :: xs) pos).pos hef (by omega)
       rw [ih]
-      simp only [specFrom]
-      rw [foldBytes_append (x :: xs) file st pos, call_fold st (x :: xs) pos hne,
-          foldBytes_append (call st (x :: xs) pos).rest file]
-      simp only [List.append_assoc, List.length_append]
-      have e2 : (call st (x :: xs) pos).pos + ((call st (x :: xs) pos).rest.length + file.length)
-          = pos + ((x :: xs).length + file.length) := by omega
-      rw [e2, hp]
+      generalize (if eof = true then ([] : Bytes) else [10]) = T
+      have e1 : x :: xs ++ file ++ T = (x :: xs) ++ (file ++ T) := by simp
+      have e2 : (call st (x :: xs) pos).rest ++ file ++ T = (call st (x :: xs) pos).rest ++ (file ++ T) := by simp
+      rw [e1, e2, foldBytes_append (x :: xs) (file ++ T) st pos, call_fold st (x :: xs) pos hne,
+          foldBytes_append (call st (x :: xs) pos).rest (file ++ T)]
+      simp only [List.append_assoc]
+      rw [call_pos]
 
 end PdfVerif.Lexer
